@@ -12,7 +12,7 @@ import itertools
 from ..core import (AnalysisIncomplete, arg_or_kw, call_name, const_value,
                     is_call_to, kwarg, names_loaded, param_default, params,
                     target_names, u, walk_expr, walk_local)
-from ..match import canon, classify, match
+from ..match import C, canon, classify, match
 from ..patterns import (assigns_to, calls_in, check_no_arg_mutation,
                         conjuncts, finfo, returns_of, subscript_stores,
                         mask_atoms, mask_keys, eval_mask, shared)
@@ -2598,11 +2598,941 @@ def _unpack_by_use(mod, fn, fi, bound):
     return 'unknown'
 
 
+# ---------------------------------------------------------------------------
+# fifth wave: necessary conditions found through the survivors of the generic
+# mutants (operand roles, branch polarity of the format tests, None paths)
+
+def _eval3t(e, env):
+    """Kleene evaluation of a boolean test.  `env` maps the canonical TEXT of a
+    sub-expression (or a bare name) to its truth value; '@size' -> the number
+    of MPI ranks, against which `mpi.size() <op> <constant>` is evaluated.
+    Everything else is unknown (None)."""
+    e = canon(e)
+    t = u(e)
+    if t in env:
+        return env[t]
+    if isinstance(e, ast.Constant):
+        return bool(e.value)
+    if isinstance(e, ast.UnaryOp) and isinstance(e.op, ast.Not):
+        v = _eval3t(e.operand, env)
+        return None if v is None else (not v)
+    if isinstance(e, ast.BoolOp):
+        vs = [_eval3t(x, env) for x in e.values]
+        if isinstance(e.op, ast.And):
+            return False if False in vs else (None if None in vs else True)
+        return True if True in vs else (None if None in vs else False)
+    if isinstance(e, ast.Compare) and len(e.ops) == 1:
+        l, r, op = e.left, e.comparators[0], e.ops[0]
+        if isinstance(op, (ast.Is, ast.IsNot, ast.Eq, ast.NotEq)) and isinstance(r, ast.Constant) \
+                and isinstance(r.value, bool) and u(l) in env:
+            same = env[u(l)] == r.value
+            return same if isinstance(op, (ast.Is, ast.Eq)) else not same
+        sizes = env.get('@size')
+        if sizes:
+            def val(x, n):
+                if isinstance(x, ast.Call) and _last(call_name(x)) in ('size', 'Get_size') and not x.args \
+                        and (call_name(x) or '').split('.')[0] in ('mpi', 'comm', 'MPI'):
+                    return n
+                c = const_value(x)
+                return c if isinstance(c, int) and not isinstance(c, bool) else None
+            import operator as _op
+            fns = {ast.Lt: _op.lt, ast.LtE: _op.le, ast.Gt: _op.gt, ast.GtE: _op.ge, ast.Eq: _op.eq, ast.NotEq: _op.ne}
+            if type(op) in fns and any(isinstance(x, ast.Call) for x in (l, r)):
+                outs = set()
+                for n in sizes:
+                    a, b = val(l, n), val(r, n)
+                    if a is None or b is None:
+                        return None
+                    outs.add(fns[type(op)](a, b))
+                return outs.pop() if len(outs) == 1 else None
+    return None
+
+
+def _dominating_conditions(fi, stmt, extra=()):
+    """[(test, polarity)] of every branch condition that holds whenever `stmt`
+    is reached (Assume nodes of the CFG that dominate it: nested ifs, elif
+    chains and the fall-through side of guard clauses alike)."""
+    from ..cfg import Assume
+    out = [(nd.test, nd.polarity) for nd in fi.cfg.nodes
+           if isinstance(nd, Assume) and stmt in fi.cfg.succ and fi.cfg.dominates(nd, stmt)]
+    return out + list(extra)
+
+
+def _def_use_conditions(fi, d, use, name):
+    """[(test, polarity)] that hold whenever the definition `d` of `name` is the
+    one that reaches the statement `use`: the branch conditions dominating `d`
+    plus every branch head that lies on ALL paths from `d` to `use` that avoid
+    the other definitions of the name (default-then-override: `f = a` /
+    `if c: f = b` - the first definition reaches the use only through the
+    not-c side)."""
+    from ..cfg import Assume
+    cfg = fi.cfg
+    out = _dominating_conditions(fi, d)
+    kills = [x for x in assigns_to(fi.fn, name) if x is not d and x in cfg.succ]
+    if not cfg.reachable(d, use, avoiding=kills):
+        return out
+    for nd in cfg.nodes:
+        if isinstance(nd, Assume) and not cfg.dominates(nd, d) and not cfg.reachable(d, use, avoiding=kills + [nd]):
+            out.append((nd.test, nd.polarity))
+    return out
+
+
+def _reach3t(fi, conds, env):
+    """Three-valued: is a statement under the conditions `conds` reachable when
+    the atoms of `env` have the given values?  False = certainly not."""
+    vs = []
+    for t, pol in conds:
+        try:
+            tx = fi.expand(t)
+        except Exception:
+            tx = t
+        v = _eval3t(tx, env)
+        if v is None and tx is not t:
+            v = _eval3t(t, env)
+        vs.append(None if v is None else (v == pol))
+    return False if False in vs else (None if None in vs else True)
+
+
+def _mentions_atom(fi, conds, env):
+    keys = {k for k in env if not k.startswith('@')}
+    for t, _ in conds:
+        for cand in (t, ):
+            try:
+                x = canon(fi.expand(cand))
+            except Exception:
+                x = canon(cand)
+            for y in list(ast.walk(x)) + list(ast.walk(canon(cand))):
+                if isinstance(y, ast.expr) and u(y) in keys:
+                    return True
+                if '@size' in env and isinstance(y, ast.Call) and _last(call_name(y)) in ('size', 'Get_size') and not y.args:
+                    return True
+    return False
+
+
+def _membership(e):
+    """The elementwise comparison behind a frame selection used as an index
+    set: `np.where(m)[0]`, `np.nonzero(m)[0]`, `np.arange(n)[m]`, `m` itself.
+    -> the Compare node, or None."""
+    e = canon(e)
+    for _ in range(3):
+        if isinstance(e, ast.Subscript) and const_value(e.slice) == 0 and isinstance(e.value, ast.Call) \
+                and call_name(e.value) in ('np.where', 'np.nonzero', 'numpy.where', 'numpy.nonzero') \
+                and len(e.value.args) == 1 and not e.value.keywords:
+            e = e.value.args[0]
+            continue
+        if isinstance(e, ast.Subscript) and isinstance(e.value, ast.Call) and call_name(e.value) in ('np.arange', 'numpy.arange') \
+                and isinstance(e.slice, ast.Compare):
+            e = e.slice
+            continue
+        break
+    if isinstance(e, ast.Compare) and len(e.ops) == 1:
+        return e
+    return None
+
+
+def _membership_verdict(e, labels, label_texts):
+    """Does the selection `e` pick exactly the frames whose label (array
+    `labels`) EQUALS the label denoted by one of `label_texts` (canonical
+    texts)?  -> ('ok'|'bad'|'unknown', shown)"""
+    c = _membership(e)
+    if c is None:
+        return 'unknown', u(e)[:80]
+    l, r = u(c.left), u(c.comparators[0])
+    sides = {l, r}
+    if labels not in sides or len(sides) != 2 or not (sides - {labels}) <= set(label_texts):
+        return 'unknown', u(c)[:80]
+    if isinstance(c.ops[0], ast.Eq):
+        return 'ok', u(c)
+    return 'bad', u(c)
+
+
+def d1_find_centers(ck):
+    """find_cluster_centers(labels, distances): for the k-th distinct label c
+    (ascending: np.unique) the reported index is, among the frames that CARRY
+    label c, the one with the smallest distance.  Every warm start takes its
+    centre indices from here; a selection over other frames (label != c), the
+    largest instead of the smallest distance, or a store at another position
+    makes center_indices[k] a frame that is not centre k."""
+    rule = 'C01.D1.find-centers'
+    from .cluster_common import _sweep_loop
+    modu = ck.repo.mod(CU)
+    F = 'find_cluster_centers'
+    fn = modu.func(F)
+    fi = finfo(modu, fn)
+    ck.analysed(modu, fn)
+    ps = params(fn)
+    rets = returns_of(fn)
+    if len(ps) < 2 or len(rets) != 1 or not isinstance(rets[0].value, ast.Name):
+        ck.missing(rule, '%s: (labels, distances) parameters / single returned index array not found' % F)
+        return
+    A, D, R = ps[0], ps[1], rets[0].value.id
+    stores = [(s, t) for s, t in subscript_stores(fn, R) if isinstance(s, ast.Assign)]
+    if not stores:
+        ck.missing(rule, '%s: no store into the returned index array `%s`' % (F, R))
+        return
+    n = 0
+    for s, t in stores:
+        loop, idx, elems, seq, problem = _sweep_loop(modu, fi, s)
+        if loop is None or problem:
+            ck.missing(rule, '%s: per-label loop around `%s` not recognised (%s)' % (F, u(s)[:60], problem))
+            continue
+        # the labels visited: the distinct values of the label array, ascending
+        # (`for k, c in enumerate(S)` or `for k in range(len(S))` with c = S[k])
+        if call_name(loop.iter) == 'enumerate':
+            seq_x = fi.expand(loop.iter.args[0])
+        else:
+            # range(len(S)) / range(S.shape[0]): S as written in the loop header
+            stop = fi.expand(loop.iter.args[-1])
+            seq_x = None
+            if isinstance(stop, ast.Call) and call_name(stop) == 'len' and len(stop.args) == 1:
+                seq_x = stop.args[0]
+            elif isinstance(stop, ast.Subscript) and isinstance(stop.value, ast.Attribute) and \
+                    stop.value.attr == 'shape' and const_value(stop.slice) == 0:
+                seq_x = stop.value.value
+        if seq_x is None:
+            ck.missing(rule, '%s: label sequence of the per-label loop not recognised' % F)
+            continue
+        v = classify(seq_x, ['np.unique(%s)' % A, 'np.sort(np.unique(%s))' % A, 'sorted(set(%s))' % A,
+                                            'np.unique(%s).tolist()' % A, 'sorted(np.unique(%s))' % A], scope={A})
+        n += 1
+        if v[0] != 'match':
+            ck.decide(v, rule, modu, loop, F, 'for %s in %s' % (u(loop.target), u(loop.iter)[:80]), '',
+                      'the labels visited must be the distinct values of `%s` in ascending order (np.unique(%s)): position k '
+                      'of the result then belongs to centre k' % (A, A))
+            continue
+        labs = set(elems) | {'%s[%s]' % (u(canon(seq_x)), idx), '%s[%s]' % (seq, idx)}
+        construct = u(s)
+        pos_ok = fi.xu(t.slice, strict=False) == idx
+        if not pos_ok:
+            pv = classify(fi.expand(t.slice), [idx], scope={idx} | set(elems))
+            ck.decide(pv if pv[0] != 'match' else 'far', rule, modu, s, F, construct, '',
+                      'the index found for the k-th label must be stored at position k (`%s`) of the result' % idx)
+            continue
+        x = canon(fi.expand(s.value, strict=False))
+        m = match('_W[%s[_W].argmin()]' % D, x) or match('_W[%s[_W].argmin(axis=0)]' % D, x)
+        if m is None:
+            cv = classify(x, ['_W[%s[_W].argmin()]' % D], scope={A, D, idx} | set(elems))
+            # a different reduction / another array in the located role
+            ck.decide(cv if cv[0] != 'match' else 'far', rule, modu, s, F, construct, '',
+                      'the index reported for a label must be <members>[argmin(%s[<members>])]: the member frame with '
+                      'the smallest distance (the centre itself after a sweep over the centres)' % D)
+            continue
+        verdict, shown = _membership_verdict(m['_W'], A, labs)
+        if verdict == 'unknown':
+            ck.missing(rule, '%s: frame set `%s` searched for the centre of a label not recognised' % (F, shown))
+            n -= 1
+        else:
+            ck.check(verdict == 'ok', rule, modu, s, F, construct,
+                     'centre of label c = the minimum-distance frame among the frames with %s' % shown,
+                     'the frame reported as the centre of label c is searched among the frames selected by `%s`, not among '
+                     'the frames that carry label c (`%s == c`): center_indices[k] is then a frame of another cluster, '
+                     'not the frame of centre k' % (shown, A))
+    ck.floor(rule, n, 1, 'per-label centre selections')
+
+
+def _value_role(mod, fn, fi, e, at, depth=2):
+    """Role ('assignments' | 'distances' | 'center_indices' | 'centers' | None)
+    of the value of `e` at statement `at`: by def-use (element k of a producer
+    whose return order is fixed), for a parameter of a private function by what
+    its in-module callers pass, for a parameter of a public function by its
+    (API) name, else by the vocabulary of the expression."""
+    try:
+        r = _component(fi, e, at)
+    except Exception:
+        r = None
+    if r is not None and isinstance(r[1], int):
+        order = _RETURN_ROLES.get(_last(call_name(r[0])))
+        if order is not None and r[1] < len(order) and order[r[1]] is not None:
+            return order[r[1]]
+    if isinstance(e, ast.Attribute) and e.attr in _ROLE_TOKENS:
+        return e.attr
+    if isinstance(e, ast.Name):
+        try:
+            defs = fi.rd.defs_at(at, e.id)
+        except Exception:
+            defs = set()
+        if defs == {'PARAM'} and fn.name.startswith('_') and depth > 0 and e.id in params(fn):
+            pos = params(fn).index(e.id)
+            roles = []
+            for q2, f2 in mod.functions.items():
+                if f2 is fn:
+                    continue
+                for c in calls_in(f2):
+                    if _last(call_name(c)) != fn.name or any(isinstance(a, ast.Starred) for a in c.args):
+                        continue
+                    a = arg_or_kw(c, pos, e.id)
+                    if a is None:
+                        continue
+                    fi2 = finfo(mod, f2)
+                    roles.append(_value_role(mod, f2, fi2, a, fi2.stmt(a), depth - 1))
+            if roles and None not in roles and len(set(roles)) == 1:
+                return roles[0]
+        if len(defs) == 1 and 'PARAM' not in defs:
+            site = next(iter(defs))
+            v = fi.def_value(site, e.id) if site != 'UNBOUND' else None
+            if isinstance(v, (ast.Name, ast.Attribute)):
+                return _value_role(mod, fn, fi, v, site, depth)
+    roles = _roles_of_text(u(e))
+    return roles.pop() if len(roles) == 1 else None
+
+
+def d4_find_centers_args(ck):
+    """Every in-package call find_cluster_centers(<labels>, <distances>) passes
+    the label array first and the distance array second (roles by def-use /
+    API names): swapped, the 'labels' are the distinct distance values and the
+    reported centre indices have nothing to do with the centres."""
+    rule = 'C01.D4.find-centers-args'
+    n = 0
+    for rel in (KC, KM, HY, CU):
+        mod = ck.repo.mod(rel)
+        callee = ck.repo.mod(CU).func('find_cluster_centers')
+        cps = params(callee)
+        for q, fn in mod.functions.items():
+            for c in calls_in(fn):
+                if _last(call_name(c)) != 'find_cluster_centers':
+                    continue
+                fi = finfo(mod, fn)
+                ck.analysed(mod, fn)
+                st = fi.stmt(c)
+                if st is None or any(isinstance(a, ast.Starred) for a in c.args) or any(k.arg is None for k in c.keywords):
+                    ck.missing(rule, '%s: arguments of %s not recognised' % (q, u(c)[:80]))
+                    continue
+                a0, a1 = arg_or_kw(c, 0, cps[0]), arg_or_kw(c, 1, cps[1])
+                if a0 is None or a1 is None:
+                    ck.missing(rule, '%s: arguments of %s not recognised' % (q, u(c)[:80]))
+                    continue
+                r0, r1 = _value_role(mod, fn, fi, a0, st), _value_role(mod, fn, fi, a1, st)
+                n += 1
+                if (r0, r1) == ('assignments', 'distances'):
+                    ck.ok(rule, mod, c, u(c)[:160], '(labels, distances) in the documented order')
+                elif (r0, r1) == ('distances', 'assignments'):
+                    ck.bad(rule, mod, c, q, u(c)[:160],
+                           'find_cluster_centers(%s, %s) expects (labels, distances); `%s` is a distance array and `%s` a '
+                           'label array: the result has one entry per distinct DISTANCE value and is not the list of '
+                           'centre frames' % (cps[0], cps[1], u(a0)[:40], u(a1)[:40]))
+                else:
+                    ck.missing(rule, '%s: roles of the arguments of %s cannot be derived (%s, %s)' % (q, u(c)[:80], r0, r1))
+                    n -= 1
+    ck.floor(rule, n, 3, 'calls of find_cluster_centers')
+
+
+def _loop_element_kinds(fn, fi, P0, P1):
+    """{name: 'frame' | 'centre'} for loop / comprehension targets that run over
+    the data parameter P0 resp. the centre container P1 (directly or through
+    enumerate)."""
+    out = {}
+
+    def note(target, it):
+        try:
+            x = canon(fi.expand(it))
+        except Exception:
+            x = canon(it)
+        el = target
+        if isinstance(x, ast.Call) and call_name(x) == 'enumerate' and x.args and isinstance(target, ast.Tuple) \
+                and len(target.elts) == 2:
+            x, el = x.args[0], target.elts[1]
+        if isinstance(x, ast.Name) and isinstance(el, ast.Name):
+            if x.id == P0:
+                out[el.id] = 'frame'
+            elif P1 is not None and x.id == P1:
+                out[el.id] = 'centre'
+    for nd in ast.walk(fn):
+        if isinstance(nd, ast.For):
+            note(nd.target, nd.iter)
+        elif isinstance(nd, ast.comprehension):
+            note(nd.target, nd.iter)
+    return out
+
+
+def d2_metric_args(ck):
+    """The dissimilarity is a callable (X, y): a set of frames first, ONE point
+    second (user callables need not be symmetric and need not accept the
+    operands the other way round).  At every call of the metric parameter in
+    the nearest-centre sweep and the k-centers iterations the first operand is
+    the data (or a masked part of it); the whole data set in the single-point
+    position is the swapped call.  The per-frame form metric(<centre
+    container>, frame) is only defined for trajectory containers: it must be
+    unreachable when `hasattr(<container>, 'xyz')` is false."""
+    rule = 'C01.D2.metric-args'
+    cu, kc = ck.repo.mod(CU), ck.repo.mod(KC)
+    for mod, F, cpos in ((cu, 'assign_to_nearest_center', 1), (kc, '_kcenters_iteration', None),
+                         (kc, '_kcenters_iteration_mpi', None)):
+        fn = mod.func(F)
+        fi = finfo(mod, fn)
+        ck.analysed(mod, fn)
+        ps = params(fn)
+        P0 = ps[0]
+        P1 = ps[cpos] if cpos is not None else None
+        elems = _loop_element_kinds(fn, fi, P0, P1)
+
+        def kind(e):
+            try:
+                x = canon(fi.expand(e, strict=False))
+            except Exception:
+                x = canon(e)
+            if isinstance(x, ast.Name):
+                if x.id == P0:
+                    return 'all'
+                if P1 is not None and x.id == P1:
+                    return 'centres'
+                return elems.get(x.id, 'other')
+            if isinstance(x, ast.Subscript) and isinstance(x.value, ast.Name) and x.value.id == P0:
+                sl = x.slice
+                if isinstance(sl, ast.Compare) or (isinstance(sl, ast.BinOp) and isinstance(sl.op, (ast.BitAnd, ast.BitOr))) \
+                        or (isinstance(sl, ast.UnaryOp) and isinstance(sl.op, ast.Invert)):
+                    return 'many'
+                y = _strip_int(sl)
+                if isinstance(y, ast.Call) and isinstance(y.func, ast.Attribute) and y.func.attr in ('argmax', 'argmin'):
+                    return 'one'
+                return 'sub'
+            return 'other'
+        n = 0
+        for c in calls_in(fn):
+            if not (isinstance(c.func, ast.Name) and c.func.id in ps):
+                continue
+            try:
+                if fi.defs_of_use(c.func) != {'PARAM'}:
+                    continue
+            except Exception:
+                continue
+            if len(c.args) != 2 or c.keywords or any(isinstance(a, ast.Starred) for a in c.args):
+                ck.missing(rule, '%s: call of the metric parameter with an unrecognised argument list: %s' % (F, u(c)[:80]))
+                continue
+            k0, k1 = kind(c.args[0]), kind(c.args[1])
+            st = fi.stmt(c)
+            construct = u(c)[:160]
+            if k0 in ('all', 'many') and k1 not in ('all', 'many'):
+                n += 1
+                ck.ok(rule, mod, c, construct, 'metric(<frames of %s>, <one point>)' % P0)
+            elif k1 in ('all', 'many') and k0 not in ('all', 'many', 'sub'):
+                n += 1
+                ck.bad(rule, mod, c, F, construct,
+                       'the metric is called with the data `%s` in the single-point position and `%s` in the data position: '
+                       'a dissimilarity callable takes (frames, one point) - for a non-symmetric or shape-sensitive callable the '
+                       'reported distances are not the distances from each frame to its centre' % (u(c.args[1])[:40], u(c.args[0])[:40]))
+            elif k0 == 'centres' and k1 == 'frame':
+                atom = C("hasattr(%s, 'xyz')" % P1)
+                conds = _dominating_conditions(fi, st)
+                env = {atom: False}
+                if not _mentions_atom(fi, conds, env):
+                    ck.missing(rule, '%s: per-frame form `%s` is not guarded by a test of the container kind `%s`' % (F, construct[:60], atom))
+                    continue
+                r = _reach3t(fi, conds, env)
+                n += 1
+                if r is False:
+                    ck.ok(rule, mod, c, construct, 'per-frame form only for trajectory containers (`%s`)' % atom)
+                elif r is True:
+                    ck.bad(rule, mod, c, F, construct,
+                           'the per-frame form hands the whole centre container `%s` to the metric as its frame set; that is '
+                           'only defined for a trajectory object, but this branch is taken whenever `%s` is false (a list '
+                           'or array of centres, which every in-package caller passes)' % (P1, atom))
+                else:
+                    ck.missing(rule, '%s: per-frame form `%s` may be reached when `%s` is false' % (F, construct[:60], atom))
+                    n -= 1
+        ck.floor(rule + ('' if F == 'assign_to_nearest_center' else '.' + F), n, 1, 'calls of the metric parameter in %s' % F)
+
+
+def d1_propose_args(ck):
+    """PAM: the proposal for centre `cid` is drawn from the data parameter,
+    amongst the frames that currently carry label `cid`.  (A frame of another
+    cluster may be that cluster's centre: it would become centre `cid` while
+    keeping its own label at distance 0.)"""
+    rule = 'C01.D1.propose-args'
+    modm = ck.repo.mod(KM)
+    F = '_kmedoids_pam_update'
+    fn = modm.func(F)
+    fi = finfo(modm, fn)
+    ro = _pam_roles(ck, rule, modm, fn, fi)
+    if ro is None:
+        return
+    callee = modm.functions.get('_propose_new_center_amongst')
+    if callee is None or len(params(callee)) < 2:
+        ck.missing(rule, '_propose_new_center_amongst not found')
+        return
+    cps = params(callee)
+    X, A, cid = ro['X'], ro['A'], ro['cid']
+    n = 0
+    for c in calls_in(ro['loop']):
+        if _last(call_name(c)) != '_propose_new_center_amongst':
+            continue
+        if any(isinstance(a, ast.Starred) for a in c.args) or any(k.arg is None for k in c.keywords):
+            ck.missing(rule, '%s: arguments of %s not recognised' % (F, u(c)[:80]))
+            continue
+        a0, a1 = arg_or_kw(c, 0, cps[0]), arg_or_kw(c, 1, cps[1])
+        if a0 is None or a1 is None:
+            ck.missing(rule, '%s: arguments of %s not recognised' % (F, u(c)[:80]))
+            continue
+        n += 1
+        x0 = canon(fi.expand(a0, strict=False))
+        v = classify(x0, [X], scope={X, A, cid})
+        if v[0] != 'match':
+            ck.decide(v, rule, modm, c, F, u(c)[:160], '',
+                      'the proposal must be drawn from the data parameter `%s`; `%s` is passed as the data' % (X, u(a0)[:40]))
+            continue
+        verdict, shown = _membership_verdict(fi.expand(a1, strict=False), A, {cid})
+        if verdict == 'unknown':
+            ck.missing(rule, '%s: candidate frames `%s` of the proposal not recognised' % (F, shown))
+            n -= 1
+            continue
+        ck.check(verdict == 'ok', rule, modm, c, F, u(c)[:160],
+                 'proposal drawn from %s amongst the frames with %s' % (X, shown),
+                 'the proposal for centre `%s` is drawn amongst the frames selected by `%s`, not amongst the frames that carry '
+                 'label `%s`: the centre frame of another cluster can be proposed, which then is reported as centre `%s` '
+                 'while it keeps its own label' % (cid, shown, cid, cid))
+    ck.floor(rule, n, 1, 'proposal calls in the per-centre loop')
+
+
+def d4_cold_start_trip(ck):
+    """kcenters(): the centre-adding loop is entered while the number of
+    centres is BELOW the requested number.  With the comparison the other way
+    round a cold start (no centres yet) never takes a trip: the result has no
+    centre at all and every frame keeps the initial label, which is not in
+    [0, number of centres)."""
+    rule = 'C01.D4.cold-start-trip'
+    mod = ck.repo.mod(KC)
+    F = 'kcenters'
+    fn = mod.func(F)
+    fi = finfo(mod, fn)
+    its = [c for c in calls_in(fn)
+           if _callee_names(fi, c) & {'_kcenters_iteration', '_kcenters_iteration_mpi'}]
+    seen = set()
+    for c in its:
+        loop = _enclosing(mod, c, (ast.While, ast.For), stop=fn)
+        lst = arg_or_kw(c, 4, 'center_inds')
+        if loop is None or not isinstance(lst, ast.Name) or id(loop) in seen:
+            continue
+        seen.add(id(loop))
+        want = 'len(%s)' % lst.id
+        for test, pol, at in _trip_conditions(mod, fi, loop, fi.stmt(c)):
+            cs = conjuncts(test, pol)
+            if cs is None:
+                continue
+            for cj in cs:
+                less = cj.as_less() if hasattr(cj, 'as_less') else None
+                if less is None:
+                    continue
+                small, strict, big = less
+                try:
+                    ts, tb = fi.xu(small), fi.xu(big)
+                except Exception:
+                    continue
+                if ts == want and want not in tb:
+                    ck.ok(rule, mod, loop, str(cj), 'a trip is taken while the number of centres is below the bound: '
+                          'a cold start enters the loop')
+                elif tb == want and want not in ts:
+                    ck.bad(rule, mod, loop, F, str(cj),
+                           'a trip is only taken while the number of centres `%s` is ABOVE `%s`: a cold start (no centres) never '
+                           'enters the loop, so the result has no centres and every frame keeps the initial label -1 at '
+                           'distance inf - labels are not in [0, number of centres)' % (want, u(small)[:40]))
+
+
+def _none_derefs(e, st, out):
+    """Collect (name, node) for every use in expression `e` that fails on None
+    (attribute, subscript, len(), iteration, call) of a name whose state in
+    `st` is 'none'.  Short-circuit evaluation is followed: the right operand of
+    `and` / `or` is evaluated under what the left operands imply, and not at
+    all when they decide the result."""
+    from .. import nullness as _nl
+    if e is None:
+        return
+    if isinstance(e, ast.BoolOp):
+        cur = dict(st)
+        for v in e.values:
+            _none_derefs(v, cur, out)
+            t = _nl.truth(v, cur)
+            if isinstance(e.op, ast.And):
+                if t is False:
+                    return
+                _nl.refine(v, True, cur)
+            else:
+                if t is True:
+                    return
+                _nl.refine(v, False, cur)
+        return
+    if isinstance(e, ast.IfExp):
+        _none_derefs(e.test, st, out)
+        t = _nl.truth(e.test, st)
+        if t is not False:
+            a = dict(st)
+            _nl.refine(e.test, True, a)
+            _none_derefs(e.body, a, out)
+        if t is not True:
+            b = dict(st)
+            _nl.refine(e.test, False, b)
+            _none_derefs(e.orelse, b, out)
+        return
+    if isinstance(e, (ast.Lambda, ast.GeneratorExp)):
+        return      # evaluated later, if at all
+
+    def is_none(x):
+        return isinstance(x, ast.Name) and st.get(x.id) == _nl.NONE
+    if isinstance(e, ast.Attribute) and is_none(e.value):
+        out.append((e.value.id, e))
+    elif isinstance(e, ast.Subscript) and is_none(e.value):
+        out.append((e.value.id, e))
+    elif isinstance(e, ast.Call):
+        if is_none(e.func):
+            out.append((e.func.id, e))
+        if call_name(e) in ('len', 'iter', 'enumerate', 'list', 'tuple', 'sorted', 'sum', 'zip') and e.args and is_none(e.args[0]):
+            out.append((e.args[0].id, e))
+    elif isinstance(e, (ast.ListComp, ast.SetComp, ast.DictComp)):
+        g = e.generators[0]
+        if is_none(g.iter):
+            out.append((g.iter.id, e))
+        _none_derefs(g.iter, st, out)
+        return      # (the element expressions see names bound by the generators)
+    for ch in ast.iter_child_nodes(e):
+        if isinstance(ch, ast.expr):
+            _none_derefs(ch, st, out)
+
+
+def _none_results(ck, rule, mod, q, fn, fi, IN):
+    """A function that hands back state arrays as `return a, b, ...` must not
+    return a name that is None.  Decided only where it is certain: from the
+    branch head where `name is None` is learnt, follow the CFG with the
+    None-ness state; a definition of the name ends the walk, a branch whose
+    test the state decides is followed on the decided side only, and a branch
+    the state does NOT decide ends the walk as well (the path may be excluded
+    by a relation between the options that the None-ness domain cannot
+    express, e.g. 'both given or neither').  Reaching a `return` that carries
+    the name is then a path every such call takes."""
+    from .. import nullness as _nl
+    from ..cfg import Assume, stmt_defs
+    cfg = fi.cfg
+    rets = {}
+    for r in returns_of(fn):
+        v = r.value
+        if isinstance(v, ast.Tuple) and len(v.elts) >= 2:
+            rets[r] = {e.id for e in v.elts if isinstance(e, ast.Name)}
+    if not rets:
+        return
+    reported = set()
+    for nd in cfg.nodes:
+        if not isinstance(nd, Assume) or IN.get(nd) is None:
+            continue
+        before = IN[nd]
+        after = dict(before)
+        _nl.refine(nd.test, nd.polarity, after)
+        learnt = {k for k, v in after.items() if v == _nl.NONE and before.get(k) != _nl.NONE}
+        if not any(learnt & names for names in rets.values()):
+            continue
+        seen, work = set(), [(nd, after)]
+        while work:
+            x, st = work.pop()
+            for y in cfg.succ.get(x, []):
+                if y in ('ENTRY', 'EXIT'):
+                    continue
+                key = (id(y), tuple(sorted((k, v) for k, v in st.items() if v != _nl.MAYBE)))
+                if key in seen:
+                    continue
+                seen.add(key)
+                st2 = dict(st)
+                if isinstance(y, Assume):
+                    t = _nl.truth(y.test, st)
+                    if t is None or t != y.polarity:
+                        continue        # excluded, or not decided by the state: not certain
+                    _nl.refine(y.test, y.polarity, st2)
+                elif y in rets:
+                    for name in sorted(learnt & rets[y]):
+                        if st.get(name) == _nl.NONE and (name, id(y)) not in reported:
+                            reported.add((name, id(y)))
+                            ck.bad(rule, mod, y, q, '%s  after  %s%s' % (u(y)[:80], '' if nd.polarity else 'not ', u(nd.test)[:80]),
+                                   '`%s` is None on the branch taken when `%s` is %s and is returned unchanged by `%s`: the caller '
+                                   'receives None where the state array is expected and fails on its first use - no clustering '
+                                   'result for this start' % (name, u(nd.test)[:60], 'true' if nd.polarity else 'false', u(y)[:60]))
+                    continue
+                elif isinstance(y, ast.AST):
+                    if isinstance(y, (ast.For, ast.AsyncFor, ast.While, ast.Try, ast.ExceptHandler)):
+                        continue        # zero-trip / exceptional continuation: not certain
+                    for name in set(stmt_defs(y) or ()):
+                        st2[name] = _nl.MAYBE
+                    if not any(st2.get(k) == _nl.NONE for k in learnt):
+                        continue
+                work.append((y, st2))
+
+
+def d4_none_deref(ck):
+    """Every entry point has options that default to None (`args`,
+    `init_centers`, `proposals`, `cluster_center_inds`, ...).  On a path on
+    which such a name is KNOWN to be None (the path was selected by a test
+    against None) it must not be dereferenced: the call would raise for the
+    default configuration and no clustering result exists at all."""
+    rule = 'C01.D4.none-deref'
+    from .. import nullness as _nl
+    from ..cfg import Assume, header_exprs
+    sites = [(KC, 'kcenters'), (KC, '_kcenters_iteration'), (KM, 'kmedoids'), (KM, '_kmedoids_inputs_tree'),
+             (KM, '_kmedoids_iterations'), (KM, '_kmedoids_pam_update'), (KM, '_propose_new_center_amongst'),
+             (HY, 'hybrid'), (CU, 'assign_to_nearest_center'), (KC, 'KCenters.fit'), (KM, 'KMedoids.fit'),
+             (HY, 'KHybrid.fit')]
+    n = 0
+    for rel, q in sites:
+        mod = ck.repo.mod(rel)
+        fn = mod.functions.get(q)
+        if fn is None:
+            continue
+        fi = finfo(mod, fn)
+        ck.analysed(mod, fn)
+        try:
+            IN, _ = _nl.run(fi, {})
+        except Exception as exc:
+            ck.missing(rule, '%s: None-ness dataflow failed (%s)' % (q, exc))
+            continue
+        uses = 0
+        for s in fi.cfg.nodes:
+            if s in ('ENTRY', 'EXIT') or isinstance(s, Assume) or not isinstance(s, ast.AST):
+                continue
+            st = IN.get(s)
+            if st is None:
+                continue
+            found = []
+            for e in header_exprs(s) or []:
+                if isinstance(s, (ast.For, ast.AsyncFor)) and e is s.iter and isinstance(e, ast.Name) and st.get(e.id) == _nl.NONE:
+                    found.append((e.id, e))
+                _none_derefs(e, st, found)
+            uses += 1
+            for nm, node in found:
+                ck.bad(rule, mod, s, q, '%s  in  %s' % (u(node)[:60], u(s)[:100]),
+                       '`%s` is None whenever this point is reached (the path was selected by a test of `%s` against None) '
+                       'and `%s` is evaluated on it: the call raises instead of returning a clustering result%s' % (
+                           nm, nm, u(node)[:50],
+                           ' - and None is the default of `%s`' % nm if nm in params(fn) and isinstance(
+                               param_default(fn, nm), ast.Constant) and param_default(fn, nm).value is None else ''))
+        ck.ok(rule, mod, fn, '%s: %d statements' % (q, uses), 'no use of a name on a path on which it is known to be None')
+        n += 1
+        _none_results(ck, rule.replace('none-deref', 'none-result'), mod, q, fn, fi, IN)
+    ck.floor(rule, n, 8, 'entry points analysed for None paths')
+
+
+def _format_site(ck, rule, mod, F, fi, node, kind, conds, env_plain, env_pair, what, test_text):
+    """One construct that only makes sense for ONE format of the centre
+    indices.  kind 'pair': it treats an index as (rank, local index) / runs the
+    MPI variant - it must be unreachable in the plain (serial) world; kind
+    'plain': it uses an index as a frame number of the data - it must be
+    unreachable in the pair world.  -> 1 if decided."""
+    env = env_plain if kind == 'pair' else env_pair
+    # only the conditions that speak about the format decide; the others
+    # (options, validation guard clauses) hold in both worlds alike
+    conds = [c for c in conds if _mentions_atom(fi, [c], env)]
+    if not conds:
+        ck.missing(rule, '%s: %s is not guarded by the format test `%s`' % (F, what[:80], test_text))
+        return 0
+    r = _reach3t(fi, conds, env)
+    if r is False:
+        ck.ok(rule, mod, node, what[:160], '%s-format construct, unreachable when `%s` is %s' % (
+            kind, test_text, 'false' if kind == 'pair' else 'true'))
+        return 1
+    if r is True:
+        if kind == 'pair':
+            why = ('this treats centre indices as (rank, local index) pairs / runs the MPI variant, but it is on the branch taken '
+                   'when `%s` is FALSE, i.e. for plain frame indices of a serial run: the reported centre indices are then pairs '
+                   '(or the call fails), center_indices[j] is not the frame number of centre j' % test_text)
+        else:
+            why = ('this uses a centre index as a plain frame number of the data, but it is on the branch taken when `%s` is TRUE, '
+                   'i.e. when the indices are (rank, local index) pairs' % test_text)
+        ck.bad(rule, mod, node, F, what[:200], why)
+        return 1
+    ck.missing(rule, '%s: %s may be reached whatever `%s` says' % (F, what[:80], test_text))
+    return 0
+
+
+def _alias_arms(fi, v, extra, depth=3):
+    """[(function name, extra conditions)] a callable-valued expression may denote."""
+    if isinstance(v, ast.IfExp):
+        return _alias_arms(fi, v.body, extra + [(v.test, True)], depth) + \
+            _alias_arms(fi, v.orelse, extra + [(v.test, False)], depth)
+    if isinstance(v, ast.Attribute):
+        return [(v.attr, extra)]
+    if isinstance(v, ast.Name):
+        return [(v.id, extra)]
+    return [(None, extra)]
+
+
+def d1_index_format(ck):
+    """Centre indices come in two formats: plain frame numbers (serial) and
+    (rank, local index) pairs (MPI).  Which code handles them is selected by
+    format tests (`mpi_mode`, `hasattr(<index>, '__len__')`, `mpi.size() > 1`).
+    Necessary: a construct of the pair world (distribute_frame, the *_mpi
+    variants, `index[0]`/`index[1]`) is unreachable when the format test is
+    false, and a construct of the plain world (`X[index]`, the serial
+    variants) is unreachable when it is true.  With the polarity inverted a
+    serial run reports (0, i) pairs as centre indices or fails."""
+    rule = 'C01.D1.index-format'
+    n = 0
+    # (a) kcenters(): which iteration variant runs
+    mod = ck.repo.mod(KC)
+    F = 'kcenters'
+    fn = mod.func(F)
+    fi = finfo(mod, fn)
+    flag = 'mpi_mode'
+    VAR = {'_kcenters_iteration_mpi': 'pair', '_kcenters_iteration': 'plain'}
+    if flag not in params(fn):
+        ck.missing(rule, 'kcenters: option `mpi_mode` not found')
+    else:
+        envs = ({flag: False}, {flag: True})
+        for c in calls_in(fn):
+            if not (_callee_names(fi, c) & set(VAR)):
+                continue
+            if isinstance(c.func, ast.Name) and c.func.id not in VAR:
+                try:
+                    dsites = [x for x in fi.defs_of_use(c.func)]
+                except Exception:
+                    dsites = []
+                for site in dsites:
+                    v = fi.def_value(site, c.func.id) if site not in ('PARAM', 'UNBOUND') else None
+                    if v is None:
+                        ck.missing(rule, 'kcenters: definition of the iteration alias `%s` not recognised' % c.func.id)
+                        continue
+                    for name, extra in _alias_arms(fi, v, []):
+                        if name not in VAR:
+                            ck.missing(rule, 'kcenters: iteration alias `%s` may denote `%s`' % (c.func.id, name))
+                            continue
+                        if fi.rd.defs_at(site, flag) != {'PARAM'}:
+                            ck.missing(rule, 'kcenters: `%s` is rebound before the variant is selected' % flag)
+                            continue
+                        n += _format_site(ck, rule, mod, F, fi, site, VAR[name],
+                                          _def_use_conditions(fi, site, fi.stmt(c), c.func.id) + extra,
+                                          envs[0], envs[1], '%s = %s' % (c.func.id, name), flag)
+            else:
+                name = _last(call_name(c))
+                st = fi.stmt(c)
+                if name in VAR and st is not None and fi.rd.defs_at(st, flag) == {'PARAM'}:
+                    n += _format_site(ck, rule, mod, F, fi, st, VAR[name], _dominating_conditions(fi, st), envs[0], envs[1],
+                                      'call of %s' % name, flag)
+    # (b)+(c) PAM update and the proposal helper
+    modm = ck.repo.mod(KM)
+    F = '_kmedoids_pam_update'
+    fnp = modm.func(F)
+    fip = finfo(modm, fnp)
+    ro = _pam_roles(ck, rule, modm, fnp, fip)
+    if ro is not None:
+        I, X = ro['I'], ro['X']
+        list_atom = C("hasattr(%s[0], '__len__')" % I)
+        # names that hold ONE centre index: what is stored into I[..], plain iteration targets over I
+        J = {s.value.id for s, t in subscript_stores(ro['loop'], I) if isinstance(s, ast.Assign) and isinstance(s.value, ast.Name)}
+        for nd in ast.walk(fnp):
+            if isinstance(nd, (ast.For, ast.comprehension)) and isinstance(nd.target, ast.Name):
+                try:
+                    it = canon(fip.expand(nd.iter)) if isinstance(nd, ast.For) else canon(nd.iter)
+                except Exception:
+                    it = canon(nd.iter)
+                if isinstance(it, ast.Name) and it.id == I:
+                    J.add(nd.target.id)
+        env_plain = {list_atom: False}
+        env_pair = {list_atom: True}
+        for j in J:
+            env_plain[C("hasattr(%s, '__len__')" % j)] = False
+            env_pair[C("hasattr(%s, '__len__')" % j)] = True
+        shown = "hasattr(<centre index>, '__len__')"
+        for c in calls_in(fnp):
+            if _last(call_name(c)) == 'distribute_frame':
+                st = fip.stmt(c)
+                n += _format_site(ck, rule, modm, F, fip, st, 'pair', _dominating_conditions(fip, st), env_plain, env_pair,
+                                  u(c)[:120], shown)
+        for x in ast.walk(fnp):
+            if isinstance(x, ast.Subscript) and isinstance(x.ctx, ast.Load) and isinstance(x.value, ast.Name) and x.value.id == X \
+                    and isinstance(_strip_int(x.slice), ast.Name) and _strip_int(x.slice).id in J:
+                st = fip.stmt(x)
+                if st is None:
+                    continue
+                n += _format_site(ck, rule, modm, F, fip, st, 'plain', _dominating_conditions(fip, st), env_plain, env_pair,
+                                  '%s  in  %s' % (u(x), u(st)[:100]), shown)
+        # the proposal helper: its format flag is what receives the format test of the index list
+        callee = modm.functions.get('_propose_new_center_amongst')
+        cps = params(callee) if callee is not None else []
+        flagq = None
+        for c in calls_in(ro['loop']):
+            if _last(call_name(c)) != '_propose_new_center_amongst' or callee is None:
+                continue
+            passed = [(cps[i], a) for i, a in enumerate(c.args) if i < len(cps) and not isinstance(a, ast.Starred)] + \
+                     [(k.arg, k.value) for k in c.keywords if k.arg]
+            cand = [(pn, a) for pn, a in passed if match("hasattr(_S, '__len__')", fip.expand(a, strict=False)) is not None
+                    or pn == 'mpi_mode']
+            if len(cand) != 1:
+                if 'mpi_mode' in cps:
+                    ck.missing(rule, '%s: format flag of %s not passed in a recognised way' % (F, u(c)[:80]))
+                continue
+            pn, a = cand[0]
+            xa = canon(fip.expand(a, strict=False))
+            v = classify(xa, [list_atom], scope={I})
+            if isinstance(xa, ast.UnaryOp) and isinstance(xa.op, ast.Not) and u(xa.operand) == list_atom:
+                v = ('near', 1, list_atom)      # the negated format test
+            n += 1
+            ck.decide(v, rule, modm, c, F, '%s=%s' % (pn, u(a)[:80]),
+                      'the proposal helper is told the format of the index list `%s`' % I,
+                      'the format flag `%s` of the proposal helper must be `%s` (are the centre indices pairs?)' % (pn, list_atom))
+            if v[0] == 'match':
+                flagq = pn
+        if flagq is not None:
+            Fq = '_propose_new_center_amongst'
+            fiq = finfo(modm, callee)
+            Xq = cps[0]
+            envs = ({flagq: False}, {flagq: True})
+            for r, elts in _ret_tuples(fiq, callee, 2):
+                if not elts:
+                    continue
+                cexp = elts[0]
+                dsites = [(site, fiq.def_value(site, cexp.id) if site not in ('PARAM', 'UNBOUND') else None)
+                          for site in fiq.defs_of_use(cexp)] if isinstance(cexp, ast.Name) else [(r, cexp)]
+                for site, v in dsites:
+                    if v is None or site in ('PARAM', 'UNBOUND'):
+                        continue
+                    if fiq.rd.defs_at(site, flagq) != {'PARAM'}:
+                        ck.missing(rule, '%s: `%s` is rebound before the format is tested' % (Fq, flagq))
+                        continue
+                    if isinstance(v, ast.Call) and _last(call_name(v)) == 'distribute_frame':
+                        kind = 'pair'
+                    elif isinstance(v, ast.Subscript) and u(v.value) == Xq:
+                        kind = 'plain'
+                    else:
+                        continue
+                    n += _format_site(ck, rule, modm, Fq, fiq, site, kind, _dominating_conditions(fiq, site), envs[0], envs[1],
+                                      u(site)[:120], flagq)
+    # (d) _kmedoids_inputs_tree: conversion of (trajectory, frame) pairs
+    F = '_kmedoids_inputs_tree'
+    fnt = modm.functions.get(F)
+    if fnt is not None:
+        fit = finfo(modm, fnt)
+        P = None
+        for r, elts in _ret_tuples(fit, fnt, 3):
+            if elts and isinstance(elts[2], ast.Name):
+                P = elts[2].id
+        if P is None:
+            ck.missing(rule, '%s: returned index list not found' % F)
+        else:
+            atom = C("hasattr(%s[0], '__len__')" % P)
+            done = set()
+            for x in ast.walk(fnt):
+                if isinstance(x, ast.Subscript) and isinstance(x.ctx, ast.Load) and isinstance(x.value, ast.Subscript) and \
+                        isinstance(x.value.value, ast.Name) and x.value.value.id == P and const_value(x.slice) in (0, 1):
+                    st = fit.stmt(x)
+                    if st is None or id(st) in done:
+                        continue
+                    done.add(id(st))
+                    n += _format_site(ck, rule, modm, F, fit, st, 'pair', _dominating_conditions(fit, st), {atom: False}, {atom: True},
+                                      '%s  in  %s' % (u(x), u(st)[:100]), atom)
+    # (e) kmedoids(): which input tree runs
+    F = 'kmedoids'
+    fnk = modm.functions.get(F)
+    if fnk is not None:
+        fik = finfo(modm, fnk)
+        VARK = {'_kmedoids_inputs_tree_mpi': 'pair', '_kmedoids_inputs_tree': 'plain'}
+        for c in calls_in(fnk):
+            name = _last(call_name(c))
+            if name in VARK:
+                st = fik.stmt(c)
+                n += _format_site(ck, rule, modm, F, fik, st, VARK[name], _dominating_conditions(fik, st),
+                                  {'@size': (1,)}, {'@size': (2, 3, 64)}, 'call of %s' % name, 'mpi.size() > 1')
+    ck.floor(rule, n, 8, 'format-specific constructs')
+
+
 def check(ck):
     d1_lockstep(ck)
     d1_warmstart(ck)
     d1_propose(ck)
     d1_no_reselect(ck)
+    d1_find_centers(ck)
+    d1_propose_args(ck)
+    d1_index_format(ck)
     kc = ck.repo.mod(KC)
     n = check_running_min_commit(ck, 'C01.D2.commit', kc, '_kcenters_iteration',
                                  True, 'len-before-append')
@@ -2614,8 +3544,12 @@ def check(ck):
     ck.floor('C01.D2.commit', n, 3, 'running-minimum commits')
     d2_argmin_branch(ck)
     d2_shortcut_optin(ck)
+    d2_metric_args(ck)
     d3_pam_three_way(ck)
     d4_result_fields(ck)
+    d4_find_centers_args(ck)
+    d4_cold_start_trip(ck)
+    d4_none_deref(ck)
     d4_index_dtype(ck)
     d4_fit_result(ck)
     entries = [(KC, 'kcenters'), (KC, 'kcenters_mpi'), (KM, 'kmedoids'),
